@@ -41,6 +41,17 @@ fn operands3(ev: Ev) -> [&'static str; 4] {
     }
 }
 
+fn operands4(ev: Ev) -> [&'static str; 4] {
+    // unremarkable magnitudes whose products and sums leave the exact range (a few 1e9 in the integer types, tenths in f64)
+    match ev {
+        Ev::I64 => ["3000000000", "4000000000", "1000", "7"],
+        Ev::Num => ["3000000000", "4000000000", "1000", "6000000002"],
+        Ev::Cpx => ["(1+2i)", "i", "0.1", "3"],
+        Ev::Dec => ["0.1", "3", "7000000000000000000000000000", "1.5"],
+        Ev::F64 => ["0.1", "0.2", "0.3", "3"],
+    }
+}
+
 fn operands(ev: Ev) -> [&'static str; 4] {
     match ev {
         Ev::I64 => ["2", "3", "5", "7"],
@@ -117,7 +128,8 @@ impl Space {
         let base = match self.alt {
             0 => operands(self.ev),
             1 => operands2(self.ev),
-            _ => operands3(self.ev),
+            2 => operands3(self.ev),
+            _ => operands4(self.ev),
         };
         let mut s = String::new();
         for i in 0..=self.k {
@@ -149,6 +161,7 @@ fn spaces(sub: &str, tier: Tier) -> Vec<Space> {
         if k <= 2 {
             v.push(Space { alt: 1, ev, k, ops: BinOp::for_ev(ev), decs: decorations(ev, if k == 1 { 2 } else { 1 }), groups: groupings(k) });
             v.push(Space { alt: 2, ev, k, ops: BinOp::for_ev(ev), decs: decorations(ev, if k == 1 { 2 } else { 1 }), groups: groupings(k) });
+            v.push(Space { alt: 3, ev, k, ops: BinOp::for_ev(ev), decs: decorations(ev, if k == 1 { 2 } else { 1 }), groups: groupings(k) });
         }
     }
     v
@@ -224,7 +237,7 @@ impl Prop for C04Prop {
         "C04"
     }
     fn rule(&self) -> String {
-        "Well-formed expressions of every evaluator. Exhaustive: all chains of 1, 2 and 3 infix operators from the evaluator's full operator set over distinct operands, each operand optionally decorated (prefix -/+, postfix !, °, rad, superscript, ( ), ⌊ ⌋, ⌈ ⌉; enum3: reduced decoration set) and every single round-bracket span; long forms (flat chains of 2..512 operands per operator with order-sensitive operands such as 1e16+1.0+1.0… and i64::MAX+1+0…+(-2), deep brackets, prefix and postfix chains); random trees of depth <=6 (operators, prefix/postfix forms, brackets, calls, juxtaposition) beyond. Oracles: (a) exact reference evaluation of the stratified reference parse (bit-exact f64, i128-exact i64 with Err, typed number, exact decimal, component-exact complex + - *); (b) the fully bracketed, explicit-product rendering of the reference parse must evaluate to the same outcome bit for bit; (c) the same rendering with every operator node multiplied by 1 (opaque to shape-matching folds; not for complex, trees of <= 48 nodes). A third operand set per evaluator sits at the edge of the type (shift counts reaching the sign bit, 2^53+1, Decimal range/scale limits). non-trivial = >=2 operator nodes, two operator nodes directly nested without brackets, and (where the reference can tell) regrouping that pair changes the value; distinct by (evaluator,input,placeholder).".into()
+        "Well-formed expressions of every evaluator. Exhaustive: all chains of 1, 2 and 3 infix operators from the evaluator's full operator set over distinct operands, each operand optionally decorated (prefix -/+, postfix !, °, rad, superscript, ( ), ⌊ ⌋, ⌈ ⌉; enum3: reduced decoration set) and every single round-bracket span; long forms (flat chains of 2..512 operands per operator with order-sensitive operands such as 1e16+1.0+1.0… and i64::MAX+1+0…+(-2), deep brackets, prefix and postfix chains); random trees of depth <=6 (operators, prefix/postfix forms, brackets, calls, juxtaposition) beyond. Oracles: (a) exact reference evaluation of the stratified reference parse (bit-exact f64, i128-exact i64 with Err, typed number, exact decimal, component-exact complex + - *); (b) the fully bracketed, explicit-product rendering of the reference parse must evaluate to the same outcome bit for bit; (c) the same rendering with every operator node multiplied by 1 (opaque to shape-matching folds; not for complex, trees of <= 48 nodes). A fourth operand set uses unremarkable magnitudes whose products leave the exact range (3e9*4e9/1000, 0.1+0.2+0.3). A third operand set per evaluator sits at the edge of the type (shift counts reaching the sign bit, 2^53+1, Decimal range/scale limits). non-trivial = >=2 operator nodes, two operator nodes directly nested without brackets, and (where the reference can tell) regrouping that pair changes the value; distinct by (evaluator,input,placeholder).".into()
     }
     fn subs(&self, tier: Tier) -> Vec<Sub> {
         let mut v = Vec::new();
